@@ -2,10 +2,11 @@
    Only statements closed by [exact lemma], non-vacuity examples, refutation witnesses for the classes the
    repaired code excludes (and for the one class still open), and Print Assumptions. *)
 From Coq Require Import String.
-From Coq Require Import ZArith List Bool.
+From Coq Require Import ZArith List Bool Lia.
 From Coq.Strings Require Import Byte.
-From Verif Require Import Lib.Bytes Crypto.Sha256 Gen.GenConsts Gen.GenNetworks
-  Model.Base58 Model.Bech32 Proofs.Base58 Proofs.Base58Check Proofs.Bech32.
+From Verif Require Import Lib.Bytes Lib.BitRegroup Crypto.Sha256 Gen.GenConsts Gen.GenNetworks
+  Model.Base58 Model.Bech32 Proofs.Base58 Proofs.Base58Check Proofs.Bech32
+  Proofs.Bech32Convert Proofs.Bech32Roundtrip Proofs.Bech32Errors Proofs.Bech32Canonical.
 Import ListNotations.
 Open Scope Z_scope.
 
@@ -190,6 +191,246 @@ Example bech32_uppercase_network :
              ai_network i = Some ""%string).
 Proof. split; eexists; vm_compute; split; reflexivity. Qed.
 
+(* ================= convertbits: regrouping of the bit stream ================= *)
+(* every byte string (any length): 8 -> 5 with padding succeeds, gives ceil(8n/5) five-bit values, and
+   5 -> 8 without padding returns the bytes *)
+Theorem convertbits_roundtrip : forall bs, in_base 256 bs ->
+  exists d5, convertbits bs 8 5 true = CbOk d5 /\ in_base 32 d5 /\
+             length d5 = ((8 * length bs + 4) / 5)%nat /\
+             convertbits d5 5 8 false = CbOk bs.
+Proof. exact convertbits_8_5_8. Qed.
+
+Theorem convertbits_roundtrip_of_result : forall bs d5, in_base 256 bs ->
+  convertbits bs 8 5 true = CbOk d5 -> convertbits d5 5 8 false = CbOk bs.
+Proof. exact convertbits_roundtrip_fn. Qed.
+
+(* the other direction: whatever 5 -> 8 (pad = False) accepts is the padded regrouping of its result *)
+Theorem convertbits_accepts_only_canonical : forall d5 bs, in_base 32 d5 ->
+  convertbits d5 5 8 false = CbOk bs -> in_base 256 bs /\ convertbits bs 8 5 true = CbOk d5.
+Proof. exact convertbits_5_8_5. Qed.
+
+(* pad = False, any widths: with r = (frombits * len) mod tobits left-over bits and N the big-endian value
+   of the symbols, the call raises when r >= frombits or the r low bits of N are not all zero ... *)
+Theorem convertbits_rejects_bad_padding : forall fbn tbn data, (0 < fbn)%nat -> (0 < tbn)%nat ->
+  in_base (2 ^ Z.of_nat fbn) data ->
+  let r := ((fbn * length data) mod tbn)%nat in
+  (fbn <= r)%nat \/ val (2 ^ Z.of_nat fbn) data mod 2 ^ Z.of_nat r <> 0 ->
+  convertbits data (Z.of_nat fbn) (Z.of_nat tbn) false = CbErr.
+Proof. exact convertbits_nopad_rejects. Qed.
+
+(* ... and otherwise returns the tobits-wide digits of N / 2^r *)
+Theorem convertbits_accepts_zero_padding : forall fbn tbn data, (0 < fbn)%nat -> (0 < tbn)%nat ->
+  in_base (2 ^ Z.of_nat fbn) data ->
+  let r := ((fbn * length data) mod tbn)%nat in
+  (r < fbn)%nat -> val (2 ^ Z.of_nat fbn) data mod 2 ^ Z.of_nat r = 0 ->
+  exists out, convertbits data (Z.of_nat fbn) (Z.of_nat tbn) false = CbOk out /\
+              length out = ((fbn * length data) / tbn)%nat /\
+              in_base (2 ^ Z.of_nat tbn) out /\
+              val (2 ^ Z.of_nat tbn) out = val (2 ^ Z.of_nat fbn) data / 2 ^ Z.of_nat r.
+Proof. exact convertbits_nopad_accepts. Qed.
+
+(* a symbol outside 0 .. 2^frombits - 1: the Python None *)
+Theorem convertbits_rejects_bad_symbol : forall data fb tb pad, 0 <= fb ->
+  Exists (fun v => v < 0 \/ 2 ^ fb <= v) data -> convertbits data fb tb pad = CbNone.
+Proof. exact convertbits_bad_symbol. Qed.
+
+Example convertbits_roundtrip_example :
+  in_base 256 (map bz prog20) /\
+  convertbits (map bz prog20) 8 5 true =
+    CbOk [14; 20; 15; 7; 13; 26; 0; 25; 18; 6; 11; 13; 8; 21; 4; 20; 3; 17; 2; 29; 3; 12; 29; 3; 4; 15; 24; 20; 6; 14; 30; 22] /\
+  convertbits [14; 20; 15; 7; 13; 26; 0; 25; 18; 6; 11; 13; 8; 21; 4; 20; 3; 17; 2; 29; 3; 12; 29; 3; 4; 15; 24; 20; 6; 14; 30; 22] 5 8 false
+    = CbOk (map bz prog20).
+Proof. split; [apply map_bz_range|]. split; vm_compute; reflexivity. Qed.
+
+(* hypotheses of the padding theorems on concrete values: [31;28;0;16;5] has 25 bits, r = 1, low bit 1;
+   [31;28;0;16;4;0] has 30 bits, r = 6 >= 5; [31;28;0;16;4] has r = 1, low bit 0 *)
+Example convertbits_padding_example :
+  in_base (2 ^ Z.of_nat 5) [31; 28; 0; 16; 5] /\
+  val (2 ^ Z.of_nat 5) [31; 28; 0; 16; 5] mod 2 ^ Z.of_nat ((5 * 5) mod 8) <> 0 /\
+  (5 <= (5 * length [31; 28; 0; 16; 4; 0]) mod 8)%nat /\
+  ((5 * 5) mod 8 < 5)%nat /\ val (2 ^ Z.of_nat 5) [31; 28; 0; 16; 4] mod 2 ^ Z.of_nat ((5 * 5) mod 8) = 0 /\
+  Exists (fun v => v < 0 \/ 2 ^ 5 <= v) [32].
+Proof.
+  split; [repeat constructor; cbn; lia|]. split; [vm_compute; discriminate|]. split; [vm_compute; lia|].
+  split; [vm_compute; lia|]. split; [vm_compute; reflexivity|]. constructor. right. cbn. lia.
+Qed.
+
+(* ================= Bech32 / Bech32m: decode (encode x) = x ================= *)
+(* hrp_wf: non-empty, characters 33..126, no upper-case letter.  prog_len_ok: 2..40 bytes, 20 or 32 for
+   version 0.  enc_input: what pubkeyhash_to_addr_bech32 must be handed for a program (the bare program when
+   it is 20, 32 or 40 bytes long, else [version opcode, length] ++ program - known finding
+   bech32_enc_header_ambiguity; lengths 18, 30, 38 cannot be expressed).  checksum_xor: 1 for version 0,
+   anything for versions 1..16 (the function replaces it by BECH32M_CONST).  The 90-character limit of the
+   decoder is a hypothesis on the produced string; its length is given by bech32_encoder_total. *)
+Theorem bech32_roundtrip : forall hrp witver prog cx s,
+  hrp_wf hrp -> 0 <= witver <= 16 -> prog_len_ok witver (length prog) ->
+  ~ In (length prog) [18%nat; 30%nat; 38%nat] -> (witver = 0 -> cx = 1) ->
+  lib_bech32_enc (enc_input witver prog) hrp witver cx = Some s -> (length s <= 90)%nat ->
+  lib_bech32_dec s = Some (witver, prog).
+Proof. exact lib_roundtrip. Qed.
+
+(* the same for the BIP173 / BIP350 reference encoder (no length convention, all program lengths) *)
+Theorem bech32_roundtrip_spec : forall hrp witver prog s,
+  hrp_wf hrp -> 0 <= witver <= 16 -> prog_len_ok witver (length prog) ->
+  spec_bech32_enc hrp witver prog = Some s -> (length s <= 90)%nat ->
+  lib_bech32_dec s = Some (witver, prog).
+Proof. exact spec_roundtrip. Qed.
+
+(* on these inputs the library encoder IS the reference encoder, never fails, and its output length is known *)
+Theorem bech32_encoder_is_spec : forall hrp witver prog cx,
+  0 <= witver <= 16 -> (length prog <= 40)%nat -> ~ In (length prog) [18%nat; 30%nat; 38%nat] ->
+  (witver = 0 -> cx = 1) ->
+  lib_bech32_enc (enc_input witver prog) hrp witver cx = spec_bech32_enc hrp witver prog.
+Proof. exact lib_enc_is_spec. Qed.
+
+Theorem bech32_encoder_total : forall hrp witver prog cx,
+  0 <= witver <= 16 -> (length prog <= 40)%nat -> ~ In (length prog) [18%nat; 30%nat; 38%nat] ->
+  (witver = 0 -> cx = 1) ->
+  exists s, lib_bech32_enc (enc_input witver prog) hrp witver cx = Some s /\
+            length s = (length hrp + 8 + (8 * length prog + 4) / 5)%nat.
+Proof. exact lib_enc_succeeds. Qed.
+
+Definition bip173_addr : bytes := str "bc1qw508d6qejxtdg4y5r3zarvary0c5xw7kv8f3t4".
+Example bech32_roundtrip_example :
+  hrp_wf (str "bc") /\ prog_len_ok 0 (length prog20) /\ ~ In (length prog20) [18%nat; 30%nat; 38%nat] /\
+  lib_bech32_enc (enc_input 0 prog20) (str "bc") 0 1 = Some bip173_addr /\ (length bip173_addr <= 90)%nat /\
+  lib_bech32_dec bip173_addr = Some (0, prog20) /\
+  (* a program whose length is not 20/32/40 goes in with its two header bytes (BIP350 vector, version 16) *)
+  prog_len_ok 16 (length [x75; x1e]) /\ enc_input 16 [x75; x1e] = [x60; x02; x75; x1e] /\
+  lib_bech32_enc (enc_input 16 [x75; x1e]) (str "bc") 16 cfg_BECH32M_CONST = Some (str "bc1sw50qgdz25j") /\
+  lib_bech32_dec (str "bc1sw50qgdz25j") = Some (16, [x75; x1e]).
+Proof.
+  split; [exact hrp_bc_wf|]. split; [split; [cbn; lia|intros _; left; reflexivity]|].
+  split; [cbn; intros [H|[H|[H|[]]]]; discriminate|].
+  split; [vm_compute; reflexivity|]. split; [vm_compute; lia|]. split; [vm_compute; reflexivity|].
+  split; [split; [cbn; lia|intros H; discriminate]|].
+  repeat split; vm_compute; reflexivity.
+Qed.
+
+(* ================= Bech32 / Bech32m: accepted => canonical ================= *)
+(* an accepted string has at most 90 characters, a version 0..16, a program of 2..40 bytes (20 or 32 for
+   version 0), and its lower-cased form is exactly the reference encoding of (its own human-readable part,
+   version, program): checksum, padding bits and characters are all determined *)
+Theorem bech32_canonical : forall s v prog,
+  lib_bech32_dec s = Some (v, prog) ->
+  0 <= v <= 16 /\ prog_len_ok v (length prog) /\ (length s <= 90)%nat /\
+  exists pos, rfind x31 (map lower_byte s) = Some pos /\ (1 <= pos)%nat /\
+    spec_bech32_enc (firstn pos (map lower_byte s)) v prog = Some (map lower_byte s).
+Proof. exact bech32_dec_canonical. Qed.
+
+(* decoding followed by re-encoding with the library encoder returns the (lower-cased) string *)
+Theorem bech32_reencode_identity : forall s v prog,
+  lib_bech32_dec s = Some (v, prog) -> ~ In (length prog) [18%nat; 30%nat; 38%nat] ->
+  exists pos, rfind x31 (map lower_byte s) = Some pos /\
+    lib_bech32_enc (enc_input v prog) (firstn pos (map lower_byte s)) v (bech32_const v) = Some (map lower_byte s).
+Proof. exact bech32_dec_canonical_lib. Qed.
+
+Theorem bech32_one_spelling_per_payload : forall s1 s2 r pos,
+  lib_bech32_dec s1 = Some r -> lib_bech32_dec s2 = Some r ->
+  rfind x31 (map lower_byte s1) = Some pos -> rfind x31 (map lower_byte s2) = Some pos ->
+  firstn pos (map lower_byte s1) = firstn pos (map lower_byte s2) ->
+  map lower_byte s1 = map lower_byte s2.
+Proof. exact bech32_one_spelling. Qed.
+
+(* the six checksum values are a function of everything before them and the constant *)
+Theorem bech32_checksum_unique : forall hrp data chk const,
+  Forall (fun v => 0 <= v < 32) chk -> length chk = 6%nat ->
+  polymod (hrp_expand hrp ++ data ++ chk) = const -> mk_checksum hrp data const = chk.
+Proof. exact mk_checksum_unique. Qed.
+
+Example bech32_canonical_example :
+  let s := str "BC1QW508D6QEJXTDG4Y5R3ZARVARY0C5XW7KV8F3T4" in
+  lib_bech32_dec s = Some (0, prog20) /\ ~ In (length prog20) [18%nat; 30%nat; 38%nat] /\
+  rfind x31 (map lower_byte s) = Some 2%nat /\ map lower_byte s = bip173_addr /\
+  spec_bech32_enc (firstn 2 (map lower_byte s)) 0 prog20 = Some bip173_addr /\
+  lib_bech32_enc (enc_input 0 prog20) (firstn 2 (map lower_byte s)) 0 (bech32_const 0) = Some bip173_addr.
+Proof.
+  cbv zeta. split; [vm_compute; reflexivity|]. split; [cbn; intros [H|[H|[H|[]]]]; discriminate|].
+  repeat split; vm_compute; reflexivity.
+Qed.
+
+(* ================= Bech32 / Bech32m: corruption is detected ================= *)
+(* checksum level, ANY length: one substituted 5-bit value, or two adjacent different values swapped,
+   change the polymod (so the word no longer verifies against the same constant) *)
+Theorem bech32_single_error_changes_polymod : forall pre x x' post,
+  0 <= x < 32 -> 0 <= x' < 32 -> x <> x' ->
+  polymod (pre ++ x' :: post) <> polymod (pre ++ x :: post).
+Proof. exact single_substitution_detected. Qed.
+
+Theorem bech32_transposition_changes_polymod : forall pre x y post,
+  0 <= x < 32 -> 0 <= y < 32 -> x <> y ->
+  polymod (pre ++ y :: x :: post) <> polymod (pre ++ x :: y :: post).
+Proof. exact adjacent_transposition_detected. Qed.
+
+(* checksum level, fewer than 90 values after the error: the result verifies against NEITHER constant (a
+   single error never turns a Bech32 word into a Bech32m word or back) *)
+Theorem bech32_single_error_invalid : forall pre x x' post,
+  0 <= x < 32 -> 0 <= x' < 32 -> x <> x' -> (length post < 90)%nat ->
+  good_const (polymod (pre ++ x :: post)) -> ~ good_const (polymod (pre ++ x' :: post)).
+Proof. exact single_substitution_invalid. Qed.
+
+Theorem bech32_transposition_invalid : forall pre x y post,
+  0 <= x < 32 -> 0 <= y < 32 -> x <> y -> (length post < 90)%nat ->
+  good_const (polymod (pre ++ x :: y :: post)) -> ~ good_const (polymod (pre ++ y :: x :: post)).
+Proof. exact adjacent_transposition_invalid. Qed.
+
+(* string level: s = a ++ c :: b is accepted (hence at most 90 characters, see bech32_canonical), c lies after
+   the last '1'; replacing c by any c' that differs from it after lower-casing and is not '1' is refused
+   (c' inside or outside the character set, either case) *)
+Theorem bech32_single_error_detected : forall a c c' b r,
+  lib_bech32_dec (a ++ c :: b) = Some r ->
+  (exists pos, rfind x31 (map lower_byte (a ++ c :: b)) = Some pos /\ (pos < length a)%nat) ->
+  lower_byte c' <> lower_byte c -> lower_byte c' <> x31 ->
+  lib_bech32_dec (a ++ c' :: b) = None.
+Proof. exact substitution_rejected. Qed.
+
+Theorem bech32_transposition_detected : forall a c1 c2 b r,
+  lib_bech32_dec (a ++ c1 :: c2 :: b) = Some r ->
+  (exists pos, rfind x31 (map lower_byte (a ++ c1 :: c2 :: b)) = Some pos /\ (pos < length a)%nat) ->
+  lower_byte c1 <> lower_byte c2 ->
+  lib_bech32_dec (a ++ c2 :: c1 :: b) = None.
+Proof. exact transposition_rejected. Qed.
+
+(* form errors *)
+Theorem bech32_mixed_case_rejected : forall s c1 c2,
+  In c1 s -> lower_byte c1 <> c1 -> In c2 s -> upper_byte c2 <> c2 -> lib_bech32_dec s = None.
+Proof. exact mixed_case_rejected. Qed.
+
+Theorem bech32_overlong_rejected : forall s, (90 < length s)%nat -> lib_bech32_dec s = None.
+Proof. exact overlong_rejected. Qed.
+
+Theorem bech32_foreign_character_rejected : forall s pos c,
+  rfind x31 (map lower_byte s) = Some pos -> In c (skipn (S pos) (map lower_byte s)) -> b32_pos c = None ->
+  lib_bech32_dec s = None.
+Proof. exact foreign_character_rejected. Qed.
+
+Example bech32_error_example :
+  (* 'w' (5th character) replaced by 'x'; characters 5 and 6 ("w5") swapped *)
+  let a := str "bc1q" in let b := str "508d6qejxtdg4y5r3zarvary0c5xw7kv8f3t4" in
+  a ++ "w"%byte :: b = bip173_addr /\
+  lib_bech32_dec (a ++ "w"%byte :: b) = Some (0, prog20) /\
+  (exists pos, rfind x31 (map lower_byte (a ++ "w"%byte :: b)) = Some pos /\ (pos < length a)%nat) /\
+  lower_byte "x" <> lower_byte "w" /\ lower_byte "x" <> x31 /\
+  lib_bech32_dec (a ++ "x"%byte :: b) = None /\
+  lower_byte "w" <> lower_byte "5" /\
+  lib_bech32_dec (a ++ "5"%byte :: "w"%byte :: tl b) = None /\
+  (* checksum level: the values of "qw" are 0, 14 *)
+  b32_indices (str "qw") = Some [0; 14] /\
+  good_const (polymod (hrp_expand (str "bc") ++ [0; 14; 20; 15; 7; 13; 26; 0; 25; 18; 6; 11; 13; 8; 21; 4; 20; 3; 17; 2;
+     29; 3; 12; 29; 3; 4; 15; 24; 20; 6; 14; 30; 22; 12; 7; 9; 17; 11; 21])) /\
+  (* form errors *)
+  In "Q"%byte (str "bc1Qw5") /\ lower_byte "Q" <> "Q"%byte /\ In "b"%byte (str "bc1Qw5") /\ upper_byte "b" <> "b"%byte /\
+  b32_pos "b" = None.
+Proof.
+  cbv zeta. split; [reflexivity|]. split; [vm_compute; reflexivity|].
+  split; [exists 2%nat; split; [vm_compute; reflexivity|cbn; lia]|].
+  split; [vm_compute; discriminate|]. split; [vm_compute; discriminate|]. split; [vm_compute; reflexivity|].
+  split; [vm_compute; discriminate|]. split; [vm_compute; reflexivity|]. split; [vm_compute; reflexivity|].
+  split; [left; vm_compute; reflexivity|].
+  split; [cbn; tauto|]. split; [vm_compute; discriminate|]. split; [cbn; tauto|]. split; [vm_compute; discriminate|].
+  reflexivity.
+Qed.
+
 Print Assumptions b58_bijection_dec_enc.
 Print Assumptions b58_bijection_enc_dec.
 Print Assumptions b58_alphabet_total.
@@ -205,3 +446,26 @@ Print Assumptions bech32_checksum_valid.
 Print Assumptions bech32_wrong_constant_detected.
 Print Assumptions bech32_constants.
 Print Assumptions bech32_charset_roundtrip.
+Print Assumptions convertbits_roundtrip.
+Print Assumptions convertbits_roundtrip_of_result.
+Print Assumptions convertbits_accepts_only_canonical.
+Print Assumptions convertbits_rejects_bad_padding.
+Print Assumptions convertbits_accepts_zero_padding.
+Print Assumptions convertbits_rejects_bad_symbol.
+Print Assumptions bech32_roundtrip.
+Print Assumptions bech32_roundtrip_spec.
+Print Assumptions bech32_encoder_is_spec.
+Print Assumptions bech32_encoder_total.
+Print Assumptions bech32_canonical.
+Print Assumptions bech32_reencode_identity.
+Print Assumptions bech32_one_spelling_per_payload.
+Print Assumptions bech32_checksum_unique.
+Print Assumptions bech32_single_error_changes_polymod.
+Print Assumptions bech32_transposition_changes_polymod.
+Print Assumptions bech32_single_error_invalid.
+Print Assumptions bech32_transposition_invalid.
+Print Assumptions bech32_single_error_detected.
+Print Assumptions bech32_transposition_detected.
+Print Assumptions bech32_mixed_case_rejected.
+Print Assumptions bech32_overlong_rejected.
+Print Assumptions bech32_foreign_character_rejected.
